@@ -15,7 +15,8 @@ EXPLANATION = (
     'so Upper(0) u Upper(m)^T is the whole matrix.  Neither may depend on memory strides.  In the three communication functions '
     'the validation (2-D and square, on the shape captured before packing) raises before any packing or communication, all ranks '
     'pack exactly when symmetric, and every pack is paired with one unpack into the captured shape.  Exact value equality per '
-    'dtype is torch\'s gather/scatter semantics and is not decided. symmetry_aware reaches every layer type unconditionally (CFG-FWD).')
+    'dtype is torch\'s gather/scatter semantics and is not decided. symmetry_aware reaches every layer type unconditionally (CFG-FWD). '
+    'The completion callbacks are evaluated in the four worlds symmetric x average: unpacking and averaging commute and neither is skipped (AFF-AVG, SIB-CB).')
 
 NOT_DECIDED = 'exact value equality per dtype (torch gather/scatter)'
 
@@ -28,3 +29,7 @@ def run(ctx: Ctx) -> None:
     ctx.do(C.rule_cfg_fwd)
     from kfv.rules import dist_rules as _DR
     ctx.do(_DR.rule_contig)
+    # "symmetric allreduce returns the same result as the dense one": the completion callbacks do the same
+    # post-processing (averaging) whether or not the payload was packed
+    ctx.do(C.rule_aff_avg)
+    ctx.do(D.rule_sib_cb)
